@@ -5,7 +5,11 @@ D1 the component registry cannot pin per-run generated classes (weak / keyed ins
 D2 process-global accumulators (module- and class-level containers with growing mutations,
    stdlib process-wide registrars) are exactly the frozen, bounded ones,
 D3 long-lived objects (orchestrators, pipeline, transports, drivers, executors, emitters) do not
-   accumulate per run; every publish has a consumer.
+   accumulate per run; every publish has a consumer,
+D4 the specification a long-lived Pipeline hands to every run is read-only on the run path
+   (interprocedural ownership analysis: every in-place store reachable from execute() hits a copy the
+   run made, never an object the Pipeline owns) and is never rebound / mutated by the Pipeline after
+   construction - otherwise run N's generated classes become run N+1's input (subclass chains).
 """
 from __future__ import annotations
 
@@ -31,6 +35,7 @@ from ..engine import (
     stmt_of,
     walk_no_nested,
 )
+from ..normal import nfunc
 from ..report import Report
 
 COMP = "semantiva/core/semantiva_component.py"
@@ -115,44 +120,240 @@ def _growers_of(repo: Repo, rel: str, cls: Optional[str], name: str) -> List[Tup
     return out
 
 
+def _releases(fn: ast.AST, attr: str) -> bool:
+    """Does *fn* remove entries from the container `attr` (del x[k], x.pop(k), x.popitem(), x.clear())?"""
+    for n in walk_no_nested(fn):
+        if isinstance(n, ast.Delete) and any(isinstance(t, ast.Subscript) and dotted_name(t.value) == attr for t in n.targets):
+            return True
+        if isinstance(n, ast.Call) and isinstance(n.func, ast.Attribute) and n.func.attr in ("pop", "popitem", "clear") and dotted_name(n.func.value) == attr:
+            return True
+    return False
+
+
+def _channel_templates(repo: Repo, mod, f: ast.AST, expr: Optional[ast.AST], depth: int = 0) -> Optional[List[str]]:
+    """The channel names *expr* can denote, as fnmatch-able templates (formatted fields -> "0000"); None = unknown.
+    Locals are followed to their assignments, parameters to the arguments at the call sites of *f*,
+    module-level names to their literal value."""
+    if expr is None or depth > 4:
+        return None
+    if isinstance(expr, ast.Constant) and isinstance(expr.value, str):
+        return [expr.value]
+    if isinstance(expr, ast.JoinedStr):
+        return ["".join(str(v.value) if isinstance(v, ast.Constant) else "0000" for v in expr.values)]
+    if isinstance(expr, ast.IfExp):
+        a, b = _channel_templates(repo, mod, f, expr.body, depth + 1), _channel_templates(repo, mod, f, expr.orelse, depth + 1)
+        return None if a is None or b is None else a + b
+    if isinstance(expr, ast.Name):
+        from ..engine import assigned_value
+
+        vals = assigned_value(f, expr.id) if isinstance(f, FuncNode) else []
+        if vals:
+            out: List[str] = []
+            for v in vals:
+                t = _channel_templates(repo, mod, f, v, depth + 1)
+                if t is None:
+                    return None
+                out.extend(t)
+            return out
+        if isinstance(f, FuncNode):
+            a = f.args
+            pos = [p.arg for p in a.posonlyargs + a.args]
+            if expr.id in pos or expr.id in [p.arg for p in a.kwonlyargs]:
+                skip = 1 if isinstance(parent(f), ast.ClassDef) and pos and pos[0] in ("self", "cls") else 0
+                out = []
+                n_sites = 0
+                for m2, _qn2, f2 in repo.all_functions():
+                    for c in calls_in(f2):
+                        if call_attr(c) != f.name:
+                            continue
+                        if not any(fn is f for _m, fn in repo.resolve_call(m2, c)):
+                            continue
+                        n_sites += 1
+                        arg = kwarg(c, expr.id)
+                        if arg is None and expr.id in pos:
+                            i = pos.index(expr.id) - (skip if isinstance(c.func, ast.Attribute) else 0)
+                            arg = c.args[i] if 0 <= i < len(c.args) else None
+                        if arg is None:
+                            defaults = dict(zip(pos[len(pos) - len(a.defaults):], a.defaults))
+                            arg = defaults.get(expr.id)
+                        t = _channel_templates(repo, m2, f2, arg, depth + 1)
+                        if t is None:
+                            return None
+                        out.extend(t)
+                return out if n_sites else None
+        for st in mod.tree.body:
+            if isinstance(st, (ast.Assign, ast.AnnAssign)) and getattr(st, "value", None) is not None:
+                tg = st.targets[0] if isinstance(st, ast.Assign) else st.target
+                if isinstance(tg, ast.Name) and tg.id == expr.id:
+                    return _channel_templates(repo, mod, None, st.value, depth + 1)
+    return None
+
+
+def _appends_guarded_by_membership(fn: ast.AST, list_name: str) -> bool:
+    """Every `<x>.<list_name>.append(v)` in *fn* is dominated by a branch edge on which `v not in M` holds,
+    where M is the list itself or a container that receives v in the same function (the seen-set idiom)."""
+    from ..cfg import CFG, edges_guaranteeing
+
+    from ..engine import assigned_value
+
+    def denotes(e: ast.AST) -> Optional[str]:
+        """Dotted name of a container expression, local aliases (`known = cls._seen`) followed."""
+        if isinstance(e, ast.Name):
+            vals = assigned_value(fn, e.id)
+            if len(vals) == 1 and isinstance(vals[0], (ast.Attribute, ast.Name)):
+                return denotes(vals[0]) if not (isinstance(vals[0], ast.Name) and vals[0].id == e.id) else e.id
+        return dotted_name(e)
+
+    appends = [c for c in calls_in(fn) if isinstance(c.func, ast.Attribute) and c.func.attr in ("append", "insert", "extend") and (denotes(c.func.value) or "").split(".")[-1] == list_name]
+    if not appends:
+        raise AnalysisError(f"{qualname_of(fn)}: no append to {list_name} found")
+    g = CFG(fn, may_raise=lambda p: set())
+    for c in appends:
+        if c.func.attr != "append" or len(c.args) != 1:
+            return False
+        v = ast.unparse(c.args[0])
+        target = denotes(c.func.value)
+        members = {target}
+        for o in calls_in(fn):
+            if isinstance(o.func, ast.Attribute) and o.func.attr in ("add", "append") and len(o.args) == 1 and ast.unparse(o.args[0]) == v:
+                members.add(denotes(o.func.value))
+
+        def atom(e: ast.AST) -> Optional[bool]:
+            if isinstance(e, ast.Compare) and len(e.ops) == 1 and ast.unparse(e.left) == v and denotes(e.comparators[0]) in members:
+                if isinstance(e.ops[0], ast.NotIn):
+                    return True
+                if isinstance(e.ops[0], ast.In):
+                    return False
+            return None
+
+        ids = g.nodes_for(stmt_of(c))
+        if not ids:
+            return False
+        ok = False
+        for n in g.nodes:
+            if n.kind in ("if", "while") and n.part is not None:
+                for lab in edges_guaranteeing(n.part, atom):
+                    if all(g.dominated_by_edge(t, n.id, lab) for t in ids):
+                        ok = True
+        if not ok:
+            return False
+    return True
+
+
+REGISTRY = "_COMPONENT_REGISTRY"
+
+
+def _registry_insertions(repo: Repo, meta_init: ast.AST) -> Tuple[Optional[ast.AST], str]:
+    """Decide, by role, how the metaclass inserts the class being created (its first parameter) into containers:
+    every such insertion must go into a self-cleaning weak container (WeakSet / WeakValueDictionary) that is a bucket
+    of the registry.  Returns (offending node or None, reason)."""
+    from ..engine import assigned_value
+
+    pos = [p.arg for p in meta_init.args.posonlyargs + meta_init.args.args]
+    if not pos:
+        raise AnalysisError("_SemantivaComponentMeta.__init__ has no parameters")
+    cls_name = pos[0]
+
+    def mentions_cls(e: ast.AST) -> bool:
+        return any(isinstance(x, ast.Name) and x.id == cls_name for x in ast.walk(e))
+
+    def is_registry(e: ast.AST) -> bool:
+        if isinstance(e, ast.Name) and e.id != REGISTRY:
+            vals = assigned_value(meta_init, e.id)
+            return bool(vals) and all(is_registry(v) for v in vals)
+        return (dotted_name(e) or "").split(".")[-1] == REGISTRY
+
+    def is_weak_ctor(e: Optional[ast.AST]) -> bool:
+        return isinstance(e, ast.Call) and call_attr(e) in WEAK_CALLS
+
+    # everything that can become a bucket of the registry (in this function)
+    bucket_values: List[ast.AST] = []
+    for n in ast.walk(meta_init):
+        if isinstance(n, ast.Call) and call_attr(n) == "setdefault" and isinstance(n.func, ast.Attribute) and is_registry(n.func.value) and len(n.args) > 1:
+            bucket_values.append(n.args[1])
+        if isinstance(n, ast.Assign):
+            for t in n.targets:
+                if isinstance(t, ast.Subscript) and is_registry(t.value):
+                    bucket_values.append(n.value)
+
+    def bucket_weak(e: ast.AST, depth: int = 0) -> Optional[bool]:
+        """True: a weak bucket of the registry; False: a strong / non-self-cleaning container; None: not a registry bucket."""
+        if depth > 4:
+            return False
+        if is_weak_ctor(e):
+            return True
+        if isinstance(e, ast.Call) and call_attr(e) == "setdefault" and isinstance(e.func, ast.Attribute) and is_registry(e.func.value):
+            return is_weak_ctor(e.args[1]) if len(e.args) > 1 else False
+        if isinstance(e, ast.Call) and call_attr(e) == "get" and isinstance(e.func, ast.Attribute) and is_registry(e.func.value) or isinstance(e, ast.Subscript) and is_registry(e.value):
+            cands = [v for v in bucket_values if not (isinstance(v, ast.Name))]
+            return bool(cands) and all(is_weak_ctor(v) for v in cands)
+        if isinstance(e, ast.Name):
+            vals = assigned_value(meta_init, e.id)
+            if not vals:
+                return None
+            kinds = [bucket_weak(v, depth + 1) for v in vals if not (isinstance(v, ast.Constant) and v.value is None)]
+            if any(k is False for k in kinds):
+                return False
+            return True if kinds and all(k is True for k in kinds) else None
+        if isinstance(e, ast.NamedExpr):
+            return bucket_weak(e.value, depth + 1)
+        if isinstance(e, ast.BoolOp) or isinstance(e, ast.IfExp):
+            parts = e.values if isinstance(e, ast.BoolOp) else [e.body, e.orelse]
+            kinds = [bucket_weak(v, depth + 1) for v in parts]
+            return False if any(k is False for k in kinds) else (True if any(k is True for k in kinds) else None)
+        if isinstance(e, (ast.List, ast.Dict, ast.Set)) or isinstance(e, ast.Call) and call_attr(e) in CONTAINER_CALLS:
+            return False
+        return None
+
+    n_sites = 0
+    for n in ast.walk(meta_init):
+        container = value = None
+        if isinstance(n, ast.Call) and isinstance(n.func, ast.Attribute) and n.func.attr in GROWERS and any(mentions_cls(a) for a in list(n.args) + [k.value for k in n.keywords]):
+            container, value = n.func.value, n
+        elif isinstance(n, ast.Assign) and mentions_cls(n.value) and any(isinstance(t, ast.Subscript) for t in n.targets):
+            container, value = next(t.value for t in n.targets if isinstance(t, ast.Subscript)), n
+        if container is None:
+            continue
+        if is_registry(container):
+            n_sites += 1
+            stored = (n.args[1] if isinstance(n, ast.Call) and len(n.args) > 1 else n.value if isinstance(n, ast.Assign) else None)
+            if not (isinstance(stored, ast.Call) and call_attr(stored) in ("ref",) + tuple(WEAK_CALLS)):
+                return n, "the class is stored strongly in a slot of the process-global registry: every run's generated node / adapter / shorthand classes stay registered (or, keyed by a name generated classes share, evict each other) for the life of the process"
+            continue
+        kind = bucket_weak(container)
+        if kind is None:
+            continue  # not a registry bucket (super().__init__, local bookkeeping)
+        n_sites += 1
+        if kind is True and not (isinstance(n, ast.Call) and n.func.attr == "add"):
+            return n, "the class is stored under a key in a weak-valued bucket: generated classes share qualified names, so classes created per run evict each other and the registry - the count C18 is measured by - no longer reflects the live generated classes (component classes are held strongly or keyed by a name generated classes share)"
+        if kind is False:
+            inserted = n.args[-1] if isinstance(n, ast.Call) and n.args else None
+            if isinstance(inserted, ast.Call) and call_attr(inserted) == "ref":
+                return n, "a weak *reference object* per created class is appended to a plain container of the process-global registry: the class dies but its dead weakref.ref stays (only a reader that compacts the list removes it), so the registry gains one gc-tracked object per generated class per run"
+            return n, "component classes are held strongly (or keyed by a name generated classes share) in the process-global registry: every run's generated node / adapter / shorthand classes stay registered (or evict each other) for the life of the process"
+    if n_sites == 0:
+        raise AnalysisError("_SemantivaComponentMeta.__init__: registry insertion not found")
+    return None, ""
+
+
 def run(repo: Repo, R: Report) -> None:
     R.assume(
         "garbage collection reclaims unreferenced classes and objects (cycles included)",
         "names registered at import / registration time (processor names, module names, extension names, resolver prefixes) form a set determined by the configuration, not by the number of runs",
     )
-    R.undecided("measured counts of registered classes / gc-tracked objects (nothing is run)", "residue inside third-party libraries")
+    R.undecided(
+        "measured counts of registered classes / gc-tracked objects (nothing is run)",
+        "residue inside third-party libraries",
+        "attribute stores on node / processor objects built from the specification (D4 follows dict / list structure through calls and returns, not object fields)",
+        "one (empty) channel entry per job id kept by InMemorySemantivaTransport._queues (created by defaultdict lookup in publish, removal is forbidden by the C14 entry-stability rule)",
+    )
 
     # ------------------------------------------------------------------ D1
     r_reg = R.rule("C18-D1-registry-cannot-pin-classes", "the metaclass inserts every new component class into the process-global registry through a weak container (or a configuration-keyed slot), so per-run generated node/adapter/shorthand classes do not accumulate", 2)
-    meta_init = repo.func(COMP, "_SemantivaComponentMeta.__init__")
-    ins = [c for c in calls_in(meta_init) if isinstance(c.func, ast.Attribute) and c.func.attr in ("append", "add", "setdefault", "__setitem__", "update", "extend")]
-    stores = [n for n in ast.walk(meta_init) if isinstance(n, ast.Assign) and any(isinstance(t, ast.Subscript) and "_COMPONENT_REGISTRY" in ast.unparse(t) for t in n.targets)]
-    if not ins and not stores:
-        raise AnalysisError("_SemantivaComponentMeta.__init__: registry insertion not found")
-    weak = False
-    strong_site = None
-    for c in ins:
-        src = ast.unparse(c)
-        if "_COMPONENT_REGISTRY" not in src:
-            continue
-        if c.func.attr == "add" and isinstance(c.func.value, ast.Call) and call_attr(c.func.value) == "setdefault":
-            default = c.func.value.args[1] if len(c.func.value.args) > 1 else None
-            if isinstance(default, ast.Call) and call_attr(default) in WEAK_CALLS:
-                weak = True
-            else:
-                strong_site = c
-        elif c.func.attr in ("append", "extend"):
-            strong_site = c
-        elif c.func.attr == "add":
-            strong_site = strong_site  # receiver resolved below
-    for s in stores:
-        v = s.value
-        if not (isinstance(v, ast.Call) and call_attr(v) in ("ref", "WeakSet", "WeakValueDictionary")):
-            # keyed strong slot: acceptable only if the key is the class' qualified name *and* generated classes have distinct names - they do not
-            strong_site = s
-    reg_decl = next((st for st in repo.module(COMP).tree.body if isinstance(st, (ast.Assign, ast.AnnAssign)) and "_COMPONENT_REGISTRY" in ast.unparse(st.targets[0] if isinstance(st, ast.Assign) else st.target)), None)
-    R.check(weak and strong_site is None, r_reg, COMP, "_SemantivaComponentMeta.__init__", norm(stmt_of(ins[0])) if ins else norm(stores[0]),
-            "component classes are held strongly (or keyed by a name generated classes share) in the process-global registry: every run's generated node / adapter / shorthand classes stay registered (or evict each other) for the life of the process", meta_init.lineno)
+    meta_init = nfunc(repo, COMP, "_SemantivaComponentMeta.__init__")
+    site, why = _registry_insertions(repo, meta_init)
+    R.check(site is None, r_reg, COMP, "_SemantivaComponentMeta.__init__", norm(stmt_of(site)) if site is not None else "every insertion of the new class goes into a weak bucket of _COMPONENT_REGISTRY",
+            why, meta_init.lineno)
     getter = repo.func(COMP, "get_component_registry")
     rets = [n for n in walk_no_nested(getter) if isinstance(n, ast.Return)]
     ok = bool(rets) and all(not (isinstance(r.value, ast.Name) and r.value.id == "_COMPONENT_REGISTRY") for r in rets)
@@ -194,11 +395,12 @@ def run(repo: Repo, R: Report) -> None:
         if key not in found and repo.has_module(key[0]):
             R.note(f"frozen accumulator {key} no longer exists")
     # bounded idioms of the frozen entries that append
-    pr = repo.func("semantiva/registry/processor_registry.py", "ProcessorRegistry.register_modules")
-    src = ast.unparse(pr)
-    R.check("in cls._registered_modules" in src and "continue" in src, r_glob, "semantiva/registry/processor_registry.py", "ProcessorRegistry.register_modules", "module history append guarded by membership", "module history grows on every registration call (workers apply the profile per job)", pr.lineno)
-    prr = repo.func("semantiva/registry/parameter_resolver_registry.py", "ParameterResolverRegistry.register_resolver")
-    R.check("not in cls._resolvers" in ast.unparse(prr), r_glob, "semantiva/registry/parameter_resolver_registry.py", "ParameterResolverRegistry.register_resolver", "resolver append guarded by membership", "resolver list grows on every registration", prr.lineno)
+    for rel, qn, lst, what_ok, what_bad in (
+        ("semantiva/registry/processor_registry.py", "ProcessorRegistry.register_modules", "_module_history", "module history append guarded by membership", "module history grows on every registration call (workers apply the profile per job)"),
+        ("semantiva/registry/parameter_resolver_registry.py", "ParameterResolverRegistry.register_resolver", "_resolvers", "resolver append guarded by membership", "resolver list grows on every registration"),
+    ):
+        fn = repo.func(rel, qn)
+        R.check(_appends_guarded_by_membership(fn, lst), r_glob, rel, qn, what_ok, what_bad, fn.lineno)
     # stdlib registrars and unbounded caches
     n_reg = 0
     for mod, qn, f in repo.all_functions():
@@ -206,6 +408,9 @@ def run(repo: Repo, R: Report) -> None:
             continue
         for c in calls_in(f):
             d = call_name(c) or ""
+            head, _, rest = d.partition(".")
+            if head in mod.imports:  # `import weakref as wr`, `from atexit import register as at_exit`
+                d = mod.imports[head] + ("." + rest if rest else "")
             if d in REGISTRARS or d.endswith(".finalize") and "weakref" in d:
                 n_reg += 1
                 R.violation(r_glob, mod.rel, qn, norm(c)[:80], f"`{d}` inserts into a process-wide registry each time this runs; the registered callback keeps its arguments (driver, file, node) alive", c.lineno)
@@ -242,26 +447,31 @@ def run(repo: Repo, R: Report) -> None:
                 R.ok(r_obj, mod.rel, qn, f"{attr} grown by `{norm(stmt_of(site))[:60]}`", INSTANCE_TABLE[key], site.lineno)
             else:
                 R.violation(r_obj, mod.rel, qn, f"{attr} grown by `{norm(stmt_of(site))[:70]}`", "a long-lived object accumulates one entry per run / node / job and never releases it", site.lineno)
-    qo = repo.func("semantiva/execution/job_queue/queue_orchestrator.py", "QueueSemantivaOrchestrator.run_forever")
-    R.check(any(isinstance(n, ast.Delete) and "pending_futures" in ast.unparse(n) for n in ast.walk(qo)) or ".pending_futures.pop(" in ast.unparse(qo), r_obj, "semantiva/execution/job_queue/queue_orchestrator.py", "QueueSemantivaOrchestrator.run_forever", "pending_futures entry released on completion", "completed futures stay registered forever", qo.lineno)
+    # a frozen accumulator that is bounded because entries are released: the release must exist on the consuming path
+    qrel = "semantiva/execution/job_queue/queue_orchestrator.py"
+    qo = repo.func(qrel, "QueueSemantivaOrchestrator.run_forever")
+    qmod = repo.module(qrel)
+    qcls = enclosing_class(qo)
+    reach = [fn for _m, fn, _p in repo.call_graph_closure([(qmod, qo)]).values() if enclosing_class(fn) is qcls]
+    released = any(_releases(fn, "self.pending_futures") for fn in reach)
+    R.check(released, r_obj, qrel, "QueueSemantivaOrchestrator.run_forever", "pending_futures entry released on completion", "completed futures stay registered forever", qo.lineno)
     # publish / subscribe pairing
     patterns = []
     for mod, qn, f in repo.all_functions():
         for c in calls_in(f):
-            if call_attr(c) == "subscribe" and c.args and isinstance(c.args[0], ast.Constant) and isinstance(c.args[0].value, str):
-                patterns.append(c.args[0].value)
+            if call_attr(c) == "subscribe" and c.args:
+                patterns.extend(_channel_templates(repo, mod, f, c.args[0]) or [])
+    transport_publish = {id(fn) for m, fn in repo._build_func_index().get("publish", []) if m.rel.startswith("semantiva/execution/transport/")}
+    if not transport_publish:
+        raise AnalysisError("no transport publish() definition found")
     for mod, qn, f in repo.all_functions():
         if mod.rel.startswith(("semantiva/examples/", "semantiva/execution/transport/")):
             continue
         for c in calls_in(f):
-            if call_attr(c) == "publish" and isinstance(c.func, ast.Attribute) and "transport" in (dotted_name(c.func.value) or ""):
+            if call_attr(c) == "publish" and isinstance(c.func, ast.Attribute) and not repo.resolve_call(mod, c):
                 ch = c.args[0] if c.args else kwarg(c, "channel")
-                tmpl = None
-                if isinstance(ch, ast.Constant):
-                    tmpl = str(ch.value)
-                elif isinstance(ch, ast.JoinedStr):
-                    tmpl = "".join(str(v.value) if isinstance(v, ast.Constant) else "0000" for v in ch.values)
-                consumed = tmpl is not None and any(fnmatch(tmpl, p) for p in patterns)
+                tmpls = _channel_templates(repo, mod, f, ch)
+                consumed = bool(tmpls) and all(any(fnmatch(t, p) for p in patterns) for t in tmpls)
                 repo.consulted.add(mod.rel)
                 R.check(consumed, r_obj, mod.rel, qn, norm(c)[:90], "messages are published to a channel nothing in the package subscribes to: the in-memory transport retains one Message (data, context) per node per run on a reused Pipeline", c.lineno)
 
@@ -330,6 +540,9 @@ def _run_input_read_only(repo: Repo, R: Report) -> None:
     if not attrs or not calls:
         raise AnalysisError("Pipeline: configuration-derived attributes handed to <orchestrator>.execute not found")
     handed = {a for _f, _c, b in calls for a in b.values()}
+    flow = _SpecFlow(repo)
+    flow.shared_attrs[id(pcls)] = {f"self.{a}" for a in handed}
+    pmod = repo.module(PIPE)
     # (a) the Pipeline itself keeps them as built
     for f in [n for n in pcls.body if isinstance(n, FuncNode)]:
         qn = f"Pipeline.{f.name}"
@@ -340,17 +553,11 @@ def _run_input_read_only(repo: Repo, R: Report) -> None:
                     d = dotted_name(x) or ""
                     if d.startswith("self.") and d[5:] in handed and f.name != "__init__":
                         R.violation(r_spec, PIPE, qn, norm(n), f"`{d}` is handed to every run and rebound after construction: the next run starts from what this one left", n.lineno)
-        for st, container in _store_sites(f):
-            root = container
-            while isinstance(root, (ast.Subscript, ast.Call, ast.Attribute)) and not (isinstance(root, ast.Attribute) and isinstance(root.value, ast.Name)):
-                root = root.func if isinstance(root, ast.Call) else root.value
-            d = dotted_name(root) or ""
-            if d.startswith("self.") and d[5:] in handed:
-                R.violation(r_spec, PIPE, qn, norm(st), f"in-place change of `{d}`, which is handed to every run of this Pipeline", st.lineno)
+        if f.name != "__init__":
+            flow.analyse(pmod, f, {}, ())
     for attr in sorted(handed):
         R.ok(r_spec, PIPE, "Pipeline", f"self.{attr} bound in __init__ only", "configuration-derived, handed to execute()", attrs[attr].lineno)
     # (b) the run path does not store into them
-    flow = _SpecFlow(repo)
     n_targets = 0
     for f, c, bound in calls:
         for tmod, tfn in repo.resolve_call_by_name(c):
@@ -464,6 +671,7 @@ class _SpecFlow:
         self.memo: Dict[Tuple[int, tuple], object] = {}
         self.sites: Dict[Tuple[str, str, str], Tuple[ast.AST, Tuple[str, ...]]] = {}
         self.visited: Dict[Tuple[str, str], int] = {}
+        self.shared_attrs: Dict[int, Set[str]] = {}  # id(class) -> `self.x` expressions that denote Pipeline-owned objects
 
     # -- one function --------------------------------------------------------------------------
     def analyse(self, mod, fn: ast.AST, params: Dict[str, object], path: Tuple[str, ...]) -> object:
@@ -494,9 +702,38 @@ class _SpecFlow:
         ret: object = OWNED
         for n in walk_no_nested(fn):
             if isinstance(n, ast.Return) and n.value is not None:
+                if isinstance(n.value, ast.Name) and n.value.id in params and _leaf_guarded(g, n, n.value.id):
+                    continue  # returned only when it is neither a mapping nor a sequence: nothing to store into
                 ret = _own_join(ret, ctx.value(n.value, n))
         self.memo[key] = ret
         return ret
+
+
+MAPPING_TYPES = {"dict", "Mapping", "MutableMapping", "OrderedDict", "defaultdict"}
+SEQUENCE_TYPES = {"list", "Sequence", "MutableSequence"}
+
+
+def _leaf_guarded(g, ret: ast.Return, name: str) -> bool:
+    """`return <name>` is reached only on paths where isinstance(<name>, <mapping>) and
+    isinstance(<name>, <sequence>) were both tested false (the usual tail of a recursive copy)."""
+    from ..cfg import returns_only_through
+
+    ids = g.nodes_for(ret)
+    if not ids:
+        return False
+
+    def atom_for(types):
+        def atom(e: ast.AST) -> Optional[bool]:
+            if isinstance(e, ast.Call) and isinstance(e.func, ast.Name) and e.func.id == "isinstance" and len(e.args) == 2 and isinstance(e.args[0], ast.Name) and e.args[0].id == name:
+                t = e.args[1]
+                names = {(dotted_name(x) or "").split(".")[-1] for x in (t.elts if isinstance(t, ast.Tuple) else [t])}
+                if names & types:
+                    return False  # the negation of "is not such a container"
+            return None
+
+        return atom
+
+    return all(returns_only_through(g, atom_for(types), targets=ids)[0] for types in (MAPPING_TYPES, SEQUENCE_TYPES))
 
 
 def _mentions(expr: ast.AST, params: Dict[str, object]) -> bool:
@@ -505,7 +742,11 @@ def _mentions(expr: ast.AST, params: Dict[str, object]) -> bool:
 
 def _store_sites(fn: ast.AST) -> List[Tuple[ast.AST, ast.AST]]:
     """(statement, container expression) for every in-place store / delete / mutator call in *fn*."""
-    out = []
+    cached = getattr(fn, "_c18_store_sites", None)
+    if cached is not None:
+        return cached
+    out: List[Tuple[ast.AST, ast.AST]] = []
+    fn._c18_store_sites = out  # type: ignore[attr-defined]
     for n in walk_no_nested(fn):
         tgts: List[ast.AST] = []
         if isinstance(n, ast.Assign):
@@ -567,8 +808,15 @@ class _FnCtx:
                         out = self.params[expr.id]
                 for d in defs:
                     out = _own_join(out, self._def_value(d, expr.id))
+            if out != SHARED:
+                out = self._weak_updates(expr.id, out)
             self.name_cache[ck] = out
             return out
+        if isinstance(expr, ast.Attribute):
+            cls = enclosing_class(self.fn)
+            if cls is not None and (dotted_name(expr) or "") in self.flow.shared_attrs.get(id(cls), ()):
+                return SHARED
+            return OWNED
         if isinstance(expr, ast.Subscript):
             base = self.value(expr.value, at, env)
             if isinstance(expr.slice, ast.Slice):
@@ -628,6 +876,9 @@ class _FnCtx:
                 else:
                     children["*"] = _own_join(children.get("*", OWNED), inner)
             return _Own(children, default) if related else OWNED
+        if isinstance(expr, ast.Tuple) and not any(isinstance(e, ast.Starred) for e in expr.elts):
+            parts = {i: self.value(e, at, env) for i, e in enumerate(expr.elts)}
+            return _Own(parts) if any(_is_related(v) for v in parts.values()) else OWNED
         if isinstance(expr, (ast.List, ast.Tuple, ast.Set)):
             worst: object = OWNED
             for e in expr.elts:
@@ -651,6 +902,36 @@ class _FnCtx:
                 out = _own_join(out, self.value(v, at, env))
             return out
         return OWNED
+
+    def _weak_updates(self, name: str, out: object) -> object:
+        """What is put into the local container *name* anywhere in the function (flow-insensitive)."""
+        for st, container in _store_sites(self.fn):
+            if not (isinstance(container, ast.Name) and container.id == name):
+                continue
+            add: Optional[_Own] = None
+            if isinstance(st, (ast.Assign, ast.AnnAssign)) and getattr(st, "value", None) is not None:
+                for t in (st.targets if isinstance(st, ast.Assign) else [st.target]):
+                    if isinstance(t, ast.Subscript) and t.value is container:
+                        v = self.value(st.value, st)
+                        if _is_related(v):
+                            add = _Own({t.slice.value if isinstance(t.slice, ast.Constant) else "*": v})
+            for c in [x for x in walk_no_nested(st) if isinstance(x, ast.Call) and isinstance(x.func, ast.Attribute) and x.func.value is container]:
+                m = c.func.attr
+                if m in ("append", "add") and c.args:
+                    v = self.value(c.args[0], st)
+                    add = _Own({"*": v}) if _is_related(v) else add
+                elif m == "insert" and len(c.args) > 1:
+                    v = self.value(c.args[1], st)
+                    add = _Own({"*": v}) if _is_related(v) else add
+                elif m == "setdefault" and len(c.args) > 1:
+                    v = self.value(c.args[1], st)
+                    add = _Own({c.args[0].value if isinstance(c.args[0], ast.Constant) else "*": v}) if _is_related(v) else add
+                elif m in ("extend", "update") and c.args:
+                    v = _own_copy(self.value(c.args[0], st))
+                    add = v if isinstance(v, _Own) else add
+            if add is not None:
+                out = _own_join(out if isinstance(out, _Own) else _Own(), add)
+        return out
 
     def _def_value(self, d, name: str) -> object:
         a = d.ast
